@@ -3209,3 +3209,40 @@ def into_iter_by_value(I, st, fr, t, a):
 
 
 TABLE['std::iter::IntoIterator::into_iter'] = into_iter_by_value
+
+
+# ---- ranges with known bounds are sequences of constants: `(1..=8).rev().enumerate()`, `(0..n).map(..)`
+def _range_items(it):
+    if isinstance(it, Struct) and it.ty in ('$Range', '$RangeIncl') and all(isinstance(x, BV) and x.known() for x in it.fields[:2]):
+        lo, hi = it.fields[0].uval(), it.fields[1].uval()
+        if it.ty == '$RangeIncl':
+            hi += 1
+        if 0 <= hi - lo <= 256:
+            return [('elem', BV.const(k, it.fields[0].w)) for k in range(lo, hi)]
+    return None
+
+
+_lazy_before_ranges = {}
+for _nm, _kind in (('std::iter::Iterator::rev', '$Rev'), ('std::iter::Iterator::map', '$Map'), ('std::iter::Iterator::filter', '$Filter'),
+                   ('std::iter::Iterator::enumerate', '$Enumerate'), ('std::iter::Iterator::skip', '$Skip'),
+                   ('std::iter::Iterator::take', '$Take'), ('std::iter::Iterator::zip', '$Zip'), ('std::iter::Iterator::step_by', '$StepBy'),
+                   ('std::iter::Iterator::filter_map', '$FilterMap'), ('std::iter::Iterator::chain', '$Chain')):
+    _lazy_before_ranges[_nm] = TABLE[_nm]
+
+
+def _adapter_over_range(nm):
+    prev = _lazy_before_ranges[nm]
+
+    def h(I, st, fr, t, a):
+        items = _range_items(a[0])
+        if items is not None:
+            # a range with constant bounds under an adapter: continue as an owned sequence of its values
+            cell = ('static', 'range:%d' % next(I.frame_counter))
+            st.store[cell] = Seq(items)
+            a = [Struct('$SliceIter', (Ref(cell), 0, 'owned'))] + list(a[1:])
+        return prev(I, st, fr, t, a)
+    return h
+
+
+for _nm in _lazy_before_ranges:
+    TABLE[_nm] = _adapter_over_range(_nm)
